@@ -45,6 +45,12 @@ type FSMSnapshot struct {
 	Finalizer func() error
 	OnRelease func(invoked, succeeded bool)
 
+	// FullNeededToken identifies the full-snapshot requirement in force when the
+	// snapshot was captured (HasFullNeededToken is false if there was none). It is
+	// handed to the sink, which clears exactly that requirement on installation.
+	FullNeededToken    string
+	HasFullNeededToken bool
+
 	raft.FSMSnapshot
 	persistInvoked   bool
 	persistSucceeded bool
@@ -69,6 +75,11 @@ func (f *FSMSnapshot) Persist(sink raft.SnapshotSink) (retError error) {
 			stats.Add(numSnapshotPersistsFailed, 1)
 		}
 	}()
+	if f.Type == snapshot.Full {
+		if ts, ok := sink.(interface{ SetFullNeededToken(string, bool) }); ok {
+			ts.SetFullNeededToken(f.FullNeededToken, f.HasFullNeededToken)
+		}
+	}
 	if err := f.FSMSnapshot.Persist(sink); err != nil {
 		fsmSnapshotErrLogger.Printf("failed to persist %s snapshot %s: %v", f.Type, sink.ID(), err)
 		return err
